@@ -10,6 +10,7 @@ import (
 	"sync/atomic"
 	"testing"
 	"time"
+	"unsafe"
 
 	"github.com/ProjectSerenity/firefly/kernel/zzverif/vlib"
 )
@@ -114,6 +115,7 @@ func TestVerifC08(t *testing.T) {
 	}
 
 	c08Sequential(run)
+	c08Placed(run)
 	c08Stress(run)
 
 	nh := run.N(250, 12000)
@@ -390,6 +392,87 @@ func c08Stress(run *vlib.Run) {
 			run.Nontrivial(fp)
 		})
 	}
+}
+
+// c08Placed repeats the deterministic facts and a short contended round on locks at chosen addresses: the lock is
+// one word of memory and nothing about its behaviour may depend on where that word lies (the start of a 4 GiB
+// aligned region, the last word before an inaccessible page, a page start, an odd word of a page).
+func c08Placed(run *vlib.Run) {
+	run.OneCase(vlib.FixedBase+2, func(c *vlib.Case) {
+		c.Begin("locks placed at chosen addresses")
+		var arenas []*vlib.Arena
+		defer func() {
+			for _, a := range arenas {
+				a.Free()
+			}
+		}()
+		var locks []*Spinlock
+		var where []string
+		for _, base := range []uintptr{0x10 << 32, 0x7e << 32, 0x123 << 32} {
+			a, err := vlib.NewArena(base, 8192, false)
+			if err != nil {
+				continue // the address is taken in this process: another one will do
+			}
+			arenas = append(arenas, a)
+			a.Fill(0)
+			for _, off := range []uintptr{0, 4, 4096, 4096 + 60, 8192 - 4} {
+				locks = append(locks, (*Spinlock)(unsafe.Pointer(a.Base+off)))
+				where = append(where, fmt.Sprintf("%#x", a.Base+off))
+			}
+		}
+		if len(locks) == 0 {
+			run.Count("placed_locks_no_address_available", 1)
+			return
+		}
+		for i, l := range locks {
+			if !l.TryToAcquire() {
+				c.Violationf("try-on-free-false", "lock at %s: TryToAcquire on a free lock returned false", where[i])
+				return
+			}
+			if l.TryToAcquire() {
+				c.Violationf("try-on-held-true", "lock at %s: TryToAcquire on a held lock returned true", where[i])
+				return
+			}
+			l.Release()
+			done := make(chan struct{})
+			go func() { l.Acquire(); close(done) }()
+			select {
+			case <-done:
+			case <-time.After(c08Budget(run)):
+				run.Watchdog("Acquire of a free lock did not return")
+			}
+			if l.TryToAcquire() {
+				c.Violationf("try-on-held-true", "lock at %s: TryToAcquire returned true although Acquire holds the lock", where[i])
+				return
+			}
+			l.Release()
+			// four parties, a plain counter: every increment must survive
+			var counter, inside int64
+			var overlap int64
+			var wg gosync.WaitGroup
+			for w := 0; w < 4; w++ {
+				wg.Add(1)
+				go func() {
+					defer wg.Done()
+					for k := 0; k < 5000; k++ {
+						l.Acquire()
+						if atomic.AddInt64(&inside, 1) != 1 {
+							atomic.AddInt64(&overlap, 1)
+						}
+						counter++
+						atomic.AddInt64(&inside, -1)
+						l.Release()
+					}
+				}()
+			}
+			wg.Wait()
+			if overlap != 0 || counter != 20000 {
+				c.Violationf("two-holders", "lock at %s: %d critical sections overlapped, counter %d after 20000 increments", where[i], overlap, counter)
+				return
+			}
+			run.Count("placed_locks_checked", 1)
+		}
+	})
 }
 
 // c08Sequential checks the deterministic facts on a quiescent lock.
